@@ -33,6 +33,7 @@ const (
 	StUnresp     = "unresponsive"
 	StNoRead     = "noread"
 	StNoPeers    = "no-peers"
+	StStarted    = "just-started" // Stop within milliseconds of Start / of the first handshake
 	ptPrefix     = "pt:"
 	PtHdrBatch   = "hdr.beforeBatchWrite"
 	PtCFBefore   = "cf.beforeWrite"
@@ -41,6 +42,7 @@ const (
 	PtRBAfter    = "rb.afterBlock"
 	PtReorgAfter = "hdr.reorg.afterRollback"
 	PtNtfnTip    = "ntfn.afterTip"
+	PtCFWait     = "cf.beforeWait"
 )
 
 // States is the rotation of stop states (scenario k>=NumFixed uses
@@ -51,6 +53,7 @@ var States = []string{
 	ptPrefix + PtRBBetween, ptPrefix + PtRBAfter, ptPrefix + PtReorgAfter, StStorm, ptPrefix + PtNtfnTip,
 	StQueries, StRescanCU, StRescanRT, StRescanCur,
 	StUtxo, StBroadcast, StStorm, StRebroad, StSubs, StUnresp, StNoRead, StNoPeers,
+	StStarted, StStarted, ptPrefix + PtCFWait,
 }
 
 // Peer kinds.
@@ -124,7 +127,7 @@ func (p Plan) Point() string {
 // MidSync reports whether Stop is called while the initial sync is running.
 func (p Plan) MidSync() bool {
 	switch p.State {
-	case StHdrSync, StCFCkpt, StCFTip, ptPrefix + PtHdrBatch, ptPrefix + PtCFBefore, ptPrefix + PtCFAfter:
+	case StHdrSync, StCFCkpt, StCFTip, ptPrefix + PtHdrBatch, ptPrefix + PtCFBefore, ptPrefix + PtCFAfter, StStarted:
 		return true
 	}
 	return false
